@@ -138,7 +138,7 @@ PROPS['C09'] = {
               'external_public_keys), seal, append*, append_third_party*, third_party_request, ThirdPartyRequest::{from_container, deserialize, create_block}, '
               'SerializedBiscuit::{deserialize, from_slice, verify_inner, extract_blocks} and the key decoders.',
     'not_covered': ['inside prost, nom, regex, fmt and the Datalog engine (termination, stack depth)', 'snapshots, policies, Datalog source parsing, PEM/DER',
-                    'Biscuit::block_public_keys (PublicKeys::insert assumed)', 'the authorizer (see C10 for limit arithmetic)'],
+                    'Biscuit::block_public_keys (PublicKeys::insert assumed)', 'collection-valued operator arms (rule A3), Authorizer::from_snapshot / snapshot, the query prologues'],
     'assumptions': CRYPTO_ASSUMPTIONS + _TOKEN_CONTRACT_TRUST,
     'level_text': 'Deductive proof of panic-freedom for an explicit list of functions (named in the evidence): Verus turns every index, slice, unwrap, arithmetic operation and cast '
                   'in the extracted text into a side condition and discharges it for all inputs. The property as a whole (every entry point of the library) is NOT decided; only the listed functions are.',
@@ -243,6 +243,17 @@ PROPS['C10'] = {
 }
 PROPS['C09']['units'].append({'template': 'limits.rs', 'rlimit': 30, 'items': [r'^datalog::World::run_with_limits$', r'^token::authorizer::Authorizer::'],
                               'exclude_obligations': [r'ok_facts_initial', r'facts_budget']})   # budget semantics belong to C10, not to panic-freedom
+
+# panic-freedom of expression evaluation / printing, of loading a token into an authorizer and of the decision procedure:
+# only the side conditions (index, pop, unwrap, overflow, cast, callee preconditions that guard a panic) count for C09;
+# the functional clauses of these units belong to C03 / C04 / C06 / C07
+_NOT_PANIC = [r'::ensures\.', r'::loop\d+\.', r'::closure\d+\.', r'no_shadow']
+PROPS['C09']['units'].append({'template': 'expr.rs', 'rlimit': 30, 'items': [r'^datalog::expression::'], 'exclude_obligations': _NOT_PANIC, 'quick_canaries': []})
+PROPS['C09']['units'].append({'template': 'loadb.rs', 'rlimit': 30, 'items': _LOADB['items'], 'exclude_obligations': _NOT_PANIC, 'quick_canaries': []})
+PROPS['C09']['units'].append({'template': 'authz.rs', 'rlimit': 60, 'items': [r'^token::authorizer::Authorizer::(authorize_inner|query_inner|query_all_inner)$'], 'exclude_obligations': _NOT_PANIC, 'quick_canaries': []})
+PROPS['C09']['proved'] += (' Also: Unary / Binary::evaluate (scalar arms), Binary::evaluate_with_closure, Expression::evaluate and Expression::print for every operation sequence (no pop / remove / index / division side condition can fail); '
+                           'load_and_translate_block and AuthorizerBuilder::build_inner (index arithmetic, casts); Authorizer::authorize_inner, query_inner, query_all_inner (block indexing; needs blocks to hold the authority block, '
+                           'which build_inner::ensures.blocks establishes); World::run_with_limits and Authorizer::run / authorize / authorize_with_limits (limit arithmetic).')
 
 PROPS['C19'] = {
     'units': [{'template': 'capi.rs', 'rlimit': 30, 'items': [r'^biscuit-capi::lib::']}],
